@@ -1226,19 +1226,28 @@ func (c *c09Env) doOperatorTx() {
 
 // ---- delegation EndBlock with one record made to fail (fault injection into one item) ----------------------
 
+func (c *c09Env) itemStaker(i int) []byte {
+	_, a := DetEthKey("c09item", i)
+	return a.Bytes()
+}
+
+// n records of distinct stakers mature in the same block; a random subset of them is made to fail, each either at
+// its first step (delegation state) or in the MIDDLE of the item (staker state, after the delegation state has
+// been written into the item's branch). The block end with all items is compared with the block end from which the
+// failing items were taken off the work list (C09_endblock_items / C09_endblock_items_all): positions of failing
+// and succeeding items are arbitrary, in particular failing items precede and follow succeeding ones.
 func (c *c09Env) doEndBlockItems(tags []string) {
 	app := c.env.App
 	base, _ := c.env.Ctx.CacheContext()
 	base = base.WithGasMeter(sdk.NewInfiniteGasMeter())
-	// create n undelegations that mature at the same height, by different stakers
-	n := 2 + c.rng.Intn(3)
-	op := c.env.Operators[0]
+	n := 2 + c.rng.Intn(5)
+	op := c.env.Operators[c.rng.Intn(len(c.env.Operators))]
 	var recs []delegationtypes.UndelegationRecord
 	for i := 0; i < n; i++ {
-		st := c.stakers[i%len(c.stakers)]
+		st := c.itemStaker(i)
 		amt := sdkmath.NewInt(int64(1000 + c.rng.Intn(5000)))
 		dp := &delegationtypes.DelegationOrUndelegationParams{ClientChainID: 101, AssetsAddress: c.assets[0], StakerAddress: st, OperatorAddress: op, OpAmount: amt, LzNonce: 900000 + uint64(c.nCase*10+i), TxHash: common.BytesToHash(seedBytes("c09it", c.nCase*10+i))}
-		if err := app.AssetsKeeper.PerformDepositOrWithdraw(base, assetsDW{101, assetstypes.DepositLST, c.assets[0], st, amt}.p()); err != nil {
+		if err := app.AssetsKeeper.PerformDepositOrWithdraw(base, assetsDW{101, assetstypes.DepositLST, c.assets[0], st, amt.MulRaw(2)}.p()); err != nil {
 			panic("c09 items: deposit: " + err.Error())
 		}
 		if err := app.DelegationKeeper.DelegateTo(base, dp); err != nil {
@@ -1268,31 +1277,53 @@ func (c *c09Env) doEndBlockItems(tags []string) {
 			}
 		}
 	}
-	failing := c.rng.Intn(n)
-	fr := recs[failing]
-	// fault: the delegation state's wait-undelegation amount of the failing record is made smaller than the record,
-	// so UpdateDelegationState (or a later step) returns an error for this item only
-	dl, err := app.DelegationKeeper.GetSingleDelegationInfo(base, fr.StakerID, fr.AssetID, fr.OperatorAddr)
-	if err != nil {
-		panic("c09 items: no delegation state")
-	}
-	mode := c.rng.Intn(2)
-	if mode == 0 {
-		if _, err := app.DelegationKeeper.UpdateDelegationState(base, fr.StakerID, fr.AssetID, fr.OperatorAddr, &delegationtypes.DeltaDelegationAmounts{WaitUndelegationAmount: dl.WaitUndelegationAmount.Neg(), UndelegatableShare: sdkmath.LegacyZeroDec()}); err != nil {
-			panic("c09 items: tamper: " + err.Error())
+	// choose the failing subset: at least one failing, at least one succeeding
+	fail := make([]int, n) // 0 = succeeds, 1 = fails at the first step, 2 = fails in the middle
+	nf := 0
+	for nf == 0 || nf == n {
+		nf = 0
+		for i := range fail {
+			fail[i] = 0
+			if c.rng.Intn(2) == 0 {
+				fail[i] = 1 + c.rng.Intn(2)
+				if c.rng.Intn(3) != 0 {
+					fail[i] = 2
+				}
+				nf++
+			}
 		}
-	} else {
-		// later step fails: the operator's pending-undelegation amount is too small (after the delegation and staker
-		// states have been written into the item's cache)
-		oa, _ := app.AssetsKeeper.GetOperatorSpecifiedAssetInfo(base, op, fr.AssetID)
-		if err := app.AssetsKeeper.UpdateOperatorAssetState(base, op, fr.AssetID, assetstypes.DeltaOperatorSingleAsset{PendingUndelegationAmount: oa.PendingUndelegationAmount.Neg().Add(sdkmath.NewInt(1))}); err != nil {
-			panic("c09 items: tamper2: " + err.Error())
+	}
+	pattern := ""
+	for i, r := range recs {
+		pattern += []string{"S", "f", "F"}[fail[i]]
+		switch fail[i] {
+		case 1: // the wait-undelegation amount of the delegation is smaller than the record: UpdateDelegationState fails
+			dl, err := app.DelegationKeeper.GetSingleDelegationInfo(base, r.StakerID, r.AssetID, r.OperatorAddr)
+			if err != nil {
+				panic("c09 items: no delegation state")
+			}
+			if _, err := app.DelegationKeeper.UpdateDelegationState(base, r.StakerID, r.AssetID, r.OperatorAddr, &delegationtypes.DeltaDelegationAmounts{WaitUndelegationAmount: dl.WaitUndelegationAmount.Neg(), UndelegatableShare: sdkmath.LegacyZeroDec()}); err != nil {
+				panic("c09 items: tamper: " + err.Error())
+			}
+		case 2: // the staker's pending amount is smaller than the record: UpdateStakerAssetState fails AFTER the
+			// delegation state of this item has been written
+			si, err := app.AssetsKeeper.GetStakerSpecifiedAssetInfo(base, r.StakerID, r.AssetID)
+			if err != nil {
+				panic("c09 items: no staker state")
+			}
+			if err := app.AssetsKeeper.UpdateStakerAssetState(base, r.StakerID, r.AssetID, assetstypes.DeltaStakerSingleAsset{PendingUndelegationAmount: si.PendingUndelegationAmount.Neg()}); err != nil {
+				panic("c09 items: tamper2: " + err.Error())
+			}
 		}
 	}
 	runEnd := func(ctx sdk.Context, remove bool) (d c09Digest, panicked bool) {
 		hctx := ctx.WithBlockHeight(int64(height))
 		if remove {
-			_ = app.DelegationKeeper.DeleteUndelegationRecord(hctx, &fr)
+			for i := range recs {
+				if fail[i] != 0 {
+					_ = app.DelegationKeeper.DeleteUndelegationRecord(hctx, &recs[i])
+				}
+			}
 		}
 		func() {
 			defer func() {
@@ -1302,8 +1333,12 @@ func (c *c09Env) doEndBlockItems(tags []string) {
 			}()
 			app.DelegationKeeper.EndBlock(hctx, abci.RequestEndBlock{Height: int64(height)})
 		}()
-		// take the failing item's own record out of the comparison
-		_ = app.DelegationKeeper.DeleteUndelegationRecord(hctx, &fr)
+		// take the failing items' own records out of the comparison
+		for i := range recs {
+			if fail[i] != 0 {
+				_ = app.DelegationKeeper.DeleteUndelegationRecord(hctx, &recs[i])
+			}
+		}
 		return c09Snapshot(c.env, hctx), panicked
 	}
 	a, _ := base.CacheContext()
@@ -1311,15 +1346,12 @@ func (c *c09Env) doEndBlockItems(tags []string) {
 	da, pa := runEnd(a, false)
 	db, _ := runEnd(b, true)
 	classes, keys := c09Diff(da, db)
-	if mode == 1 {
-		// with mode 1 every record of this operator fails at the operator step unless its amount is 1: the comparison
-		// is still "with the item" against "without the item"
-		c.w.Count("items.fault=operator_pending")
-	} else {
-		c.w.Count("items.fault=delegation_wait")
-	}
-	term := cApp("CItems", cApp("mkItems", cNat(n), cNat(failing), c09Strs(classes), cBool(pa)))
-	c.w.Add(term, map[string]interface{}{"suite": "c09", "kind": "EndBlockItems", "n": n, "failing": failing, "fault": mode, "diff": classes, "diff_keys": keys, "panic": pa, "tags": tags, "nt": true})
+	// the succeeding items must really have been completed (otherwise the comparison is vacuous)
+	left, _ := app.DelegationKeeper.GetPendingUndelegationRecords(a.WithBlockHeight(int64(height)), height)
+	c.w.Count(fmt.Sprintf("items.left_after=%d", len(left)))
+	c.w.Count("items.failing=" + fmt.Sprint(nf))
+	term := cApp("CItems", cApp("mkItems", cNat(n), cNat(nf), c09Strs(classes), cBool(pa)))
+	c.w.Add(term, map[string]interface{}{"suite": "c09", "kind": "EndBlockItems", "n": n, "failing": nf, "pattern": pattern, "diff": classes, "diff_keys": keys, "panic": pa, "tags": tags, "nt": true})
 	c.w.Count("kind=EndBlockItems")
 	c.nCase++
 }
@@ -1401,7 +1433,9 @@ func runC09(a *Args) error {
 	c.doDelegation("Delegate", nil, 101, gw, as0, st1, c.opStrs[len(c.opStrs)-1], big.NewInt(1), true)
 	c.doDelegation("Undelegate", nil, 101, gw, as0, st1, c.opStrs[0], big.NewInt(3_000_001), true)
 	c.doDelegation("Undelegate", nil, 101, gw, as0, st1, c.opStrs[0], big.NewInt(1_000_000), false)
-	c.doEndBlockItems(nil)
+	for i := 0; i < 6; i++ {
+		c.doEndBlockItems(nil)
+	}
 	// (5) balance-change bitmap whose second staker is rejected after the first one has been updated
 	c.doDepositWithdraw("DepositNST", nil, 101, gw, pub(2), st1, eth(32))
 	c.doDepositWithdraw("DepositNST", nil, 101, gw, pub(3), st2, eth(32))
